@@ -249,7 +249,10 @@ fn strace_case(ctx: &Ctx, rng: &mut Rng, out: &mut CaseOut, dir: &Path) {
                 continue;
             }
             let writable_open = s.opens.iter().any(|f| f.contains("O_WRONLY") || f.contains("O_RDWR") || f.contains("O_TRUNC") || f.contains("O_CREAT") || f.contains("O_APPEND"));
-            let changed = content != formatted;
+            // does formatting change this content? (decided by the library: formatted text is not
+            // always a fixpoint, see the known findings of C03)
+            let Some((refmt, _)) = common::run(out, &cfg, &content) else { continue };
+            let changed = refmt != content;
             match mode {
                 "files" => {
                     if s.opens.iter().any(|f| f.contains("O_TRUNC")) {
